@@ -89,6 +89,18 @@ void checkMap(Ctx& ctx, const std::vector<int>& cfg)
 	auto w2 = mapc::writeMap(m2);
 	ctx.transition();
 	if (w2 != w1) { bad("write-not-byte-stable", ""); return; }
+	// the file-name overloads are the same reader and writer behind a FileReader / FileWriter
+	{
+		std::string dir = ctx.scratch(), in = dir + "/in.map", out = dir + "/out.map";
+		mc::writeFile(in, bytes);
+		Map mf; std::vector<uint8_t> wf;
+		auto of = mc::guarded([&] { mf = Map::ReadMap(in); mf.Write(out); wf = mc::readFile(out); });
+		ctx.transition(2);
+		if (of.cls != 'R') { bad("file-overloads-throw", of.what); return; }
+		if (mapc::dump(mf) != mapc::dump(m)) { bad("file-overload-read-differs-from-stream-read", ""); return; }
+		if (wf != w1) { bad("file-overload-write-differs-from-stream-write", std::to_string(wf.size()) + " bytes"); return; }
+		ctx.count("file-overloads/round-trips");
+	}
 	ctx.state(); ctx.trace();
 	ctx.outcome(mc::fnv(w1.data(), w1.size()));
 	if (r.lgWidth == 0) ctx.count("shape/width-1");
